@@ -53,7 +53,7 @@ def _strat_pt(draw, tier='quick'):
         d = draw(st.sampled_from(choices))
         dims.append(d)
         prod *= d
-    return dict(dims=dims, kind=draw(st.sampled_from(['complex', 'dm', 'product'])), layout=draw(st.sampled_from(LAYOUTS)), prng=draw(st.integers(0, 2 ** 31)))
+    return dict(dims=dims, kind=draw(st.sampled_from(['complex', 'dm', 'product', 'int', 'c64', 'real'])), layout=draw(st.sampled_from(LAYOUTS)), prng=draw(st.integers(0, 2 ** 31)))
 
 
 def run_pt(ctx, case):
@@ -64,8 +64,16 @@ def run_pt(ctx, case):
     r = ref.rng(case['prng'])
     layout = case.get('layout', 'C')
     ctx.note(klass=f'n={n}', desc=[dims, kind, layout], nontrivial=(n >= 3), labels=[f'n={n}', kind, 'unequal' if len(set(dims)) > 1 else 'equal', 'layout=' + layout])
+    tolf = 1.0
     if kind == 'complex':
         rho = ref.rand_complex(r, D, D)
+    elif kind == 'int':  # e.g. a permutation or adjacency matrix
+        rho = r.integers(-3, 4, size=(D, D))
+    elif kind == 'c64':
+        rho = ref.rand_complex(r, D, D).astype(np.complex64)
+        tolf = 1e6
+    elif kind == 'real':
+        rho = r.normal(size=(D, D))
     elif kind == 'dm':
         rho = ref.rand_dm(r, D, int(r.integers(1, min(D, 6) + 1)))
     else:
@@ -73,7 +81,8 @@ def run_pt(ctx, case):
         rho = ref.kron(*parts)
     rho = _with_layout(rho, layout)  # same values; the reference below never looks at strides (it indexes element-wise or via reshape of a C copy)
     rho_c = np.ascontiguousarray(rho)
-    tr = np.trace(rho)
+    rho_ref = rho_c.astype(np.complex128)  # the references always work in double precision
+    tr = np.trace(rho_ref)
     subsets = [s for k in range(1, n + 1) for s in itertools.combinations(range(n), k)]
     results = {}
     for j, keep in enumerate(subsets):
@@ -92,14 +101,14 @@ def run_pt(ctx, case):
         ctx.close(inp, inp_before, 0, 'partial_trace does not modify its input')
         K = int(np.prod([dims[i] for i in keep]))
         ctx.require(out.shape == (K, K), 'partial trace shape', f'{dims} keep={keep}: {out.shape}')
-        want = ref.partial_trace_fast(rho_c, dims, keep)
+        want = ref.partial_trace_fast(rho_ref, dims, keep)
         if D * K <= 4096:
-            want2 = ref.partial_trace(rho_c, dims, keep)
+            want2 = ref.partial_trace(rho_ref, dims, keep)
             if np.abs(want - want2).max() > 1e-10 * max(1, np.abs(rho).max()):
                 from ..core import HarnessError
                 raise HarnessError('reference partial traces disagree')
-        ctx.close(out, want, 1e-10, 'partial trace = explicit contraction', max(1.0, float(np.abs(rho).max())) * D)
-        ctx.close(np.trace(out), tr, 1e-10, 'trace preserved', max(1.0, abs(tr)) * D)
+        ctx.close(out, want, 1e-10 * tolf, 'partial trace = explicit contraction', max(1.0, float(np.abs(rho).max())) * D)
+        ctx.close(np.trace(out), tr, 1e-10 * tolf, 'trace preserved', max(1.0, abs(tr)) * D)
         results[keep] = out
         ctx.tick()
         non_contig = any(b - a > 1 for a, b in zip(keep, keep[1:]))
@@ -118,7 +127,7 @@ def run_pt(ctx, case):
             keep1 = keep2[::2][:k1] if k1 <= len(keep2[::2]) else keep2[:k1]
             pos = [keep2.index(i) for i in keep1]
             two = nq.utils.partial_trace(results[keep2], tuple(sub_dims), set(pos))
-            ctx.close(two, results[tuple(keep1)], 1e-10, 'tracing in two steps = one step', max(1.0, float(np.abs(rho).max())) * D)
+            ctx.close(two, results[tuple(keep1)], 1e-10 * tolf, 'tracing in two steps = one step', max(1.0, float(np.abs(rho).max())) * D)
             break
 
 
